@@ -172,8 +172,14 @@ Definition step_gen (pinned : bool) (s : state) (e : event) : option state :=
   match e_k e with
   (* ---- identities and commands ---- *)
   | KSvcName sv name =>
-    if fresh (svcs s) sv then Some (set_snames (set_svcs s (nset (svcs s) sv (mkSvc None None))) (nset (snames s) sv name))
-    else None
+    (* inserted by the trace converter (actor AEnv) when the object id first appears *)
+    match a with
+    | AEnv =>
+      if fresh (svcs s) sv && negb (nmem sv (inst s))
+      then Some (set_snames (set_svcs s (nset (svcs s) sv (mkSvc None None))) (nset (snames s) sv name))
+      else None
+    | _ => None
+    end
   | KParams c dt _ _ => Some (set_ctimeout s (nset (ctimeout s) c dt))
   | KReturn c r =>
     match nget (cmds s) c with
